@@ -644,6 +644,11 @@ def raises_under(fn: ast.AST, assumptions: List[Tuple[str, bool]], noret=frozens
             return True
         if conds_imply(prem, resolved_conditions(fn, pcs)) is True:
             return True
+        # both sides written over the function's inputs (premises may name a local the conditions reach only through
+        # another local: `n = len(xs); if n > 1`)
+        prem_x = [(prov(fn, t), p) for t, p in prem]
+        if conds_imply(prem_x, [(prov(fn, t), p) for t, p in resolved_conditions(fn, pcs)]) is True:
+            return True
     return False
 
 
@@ -1010,3 +1015,53 @@ def container_contents(fn: ast.AST, cname: str, depth: int = 3):
             for v, c in alternatives(fn, st.value.args[0], pcs, at=st):
                 out.append((None, v, resolved_conditions(fn, c)))
     return out
+
+
+
+def project_call(repo, fi, e: ast.AST) -> Optional[ast.AST]:
+    """`f(args)[k]` / `f(args).name` where f is a function of the repo whose (single) return builds the record in
+    place — a tuple display, or a constructor call with one keyword per field (NamedTuple / dataclass) — is the k-th
+    element / the field's expression, with f's parameters replaced by the arguments.  None when that is not the shape."""
+    import copy as _c
+
+    if isinstance(e, ast.Subscript) and isinstance(e.value, ast.Call):
+        call, sel = e.value, e.slice
+    elif isinstance(e, ast.Attribute) and isinstance(e.value, ast.Call):
+        call, sel = e.value, e.attr
+    else:
+        return None
+    callee = repo.resolve_call(call, fi)
+    if callee is None or not hasattr(callee, "node"):
+        return None
+    rets = returns_of(callee.node)
+    if len(rets) != 1 or rets[0].value is None:
+        return None
+    rv = prov(callee.node, rets[0].value)
+    picked = None
+    if isinstance(sel, str):
+        if isinstance(rv, ast.Call) and rv.keywords and not rv.args:
+            for pos, k in enumerate(rv.keywords):
+                if k.arg == sel:
+                    picked = k.value
+    else:
+        if isinstance(sel, ast.Constant) and isinstance(sel.value, int):
+            if isinstance(rv, ast.Tuple) and 0 <= sel.value < len(rv.elts):
+                picked = rv.elts[sel.value]
+            elif isinstance(rv, ast.Call) and rv.keywords and not rv.args and 0 <= sel.value < len(rv.keywords):
+                picked = rv.keywords[sel.value].value  # positional view of a NamedTuple built by keywords, in field order
+    if picked is None:
+        return None
+    params = [a.arg for a in callee.node.args.args]
+    if getattr(callee, "cls", None) is not None and params and params[0] in ("self", "cls"):
+        params = params[1:]
+    if len(call.args) > len(params) or any(k.arg is None for k in call.keywords):
+        return None
+    bind = dict(zip(params, call.args))
+    for k in call.keywords:
+        bind[k.arg] = k.value
+
+    class S(ast.NodeTransformer):
+        def visit_Name(self, node):
+            return _c.deepcopy(bind[node.id]) if node.id in bind and isinstance(node.ctx, ast.Load) else node
+
+    return ast.fix_missing_locations(S().visit(_c.deepcopy(picked)))
